@@ -323,6 +323,10 @@ class World:
             other.ref(snapshot(self.data), "s")
             other.ref(self.funcs, "f")
             other.copy_expr_from(self.m, "s")
+        elif k == "callfun":
+            # a function generated for several inputs, called once: all inputs are written, then everything downstream runs once
+            fn = self.m.gen_fun("fn", **{f"a{i}": self.ref(L) for i, L in enumerate(op[1])})
+            fn(**{f"a{i}": v for i, v in enumerate(op[2])})
         elif k == "genfun":
             # generating a setter function is a query: it must not change anything (it may fill caches)
             self.m.gen_fun("fn", **{f"a{i}": self.ref(L) for i, L in enumerate(op[1])})
@@ -385,6 +389,9 @@ def op_str(op):
         return f"{T.path_str(op[1])} = {fmt_value(op[2])}   # first attempt fails at container write #{op[3]} (caught), then repeated"
     if k == "export":
         return "other_manager.copy_expr_from(m, 's')   # this manager is the source"
+    if k == "callfun":
+        return ("m.gen_fun('fn', " + ", ".join(f"a{i}={T.path_str(L)}" for i, L in enumerate(op[1])) + ")(" +
+                ", ".join(fmt_value(v) for v in op[2]) + ")")
     if k == "genfun":
         return "m.gen_fun('fn', " + ", ".join(f"a{i}={T.path_str(L)}" for i, L in enumerate(op[1])) + ")"
     return f"m.{k}()"
